@@ -31,7 +31,7 @@ func init() {
 		Level: "exploration",
 		Cases: func(tier string) int { return tierN(tier, 4000, 80000) },
 		Run:   runC11,
-		Rule: "case = (multihash configuration with file limits 50-1000 bytes, key universe, fill history that spreads records over several files, then a kill phase that removes/overwrites all keys of chosen non-current files, or all but a few (low-use scenario), followed by Flush and harness-driven GC cycles with a Flush after each; some cases start with cycles stopped midway by a synthetic deadline; in a quarter of the cases EVERY primary cycle is time-limited with a budget that expires while its first unvisited file is scanned, and the bounds grow by the number of non-current files). Oracle on directory listings, sizes, StorageSize and fsck's decoded layout: (a) every non-current primary file without live records is zero-length or unlinked within 4 primary cycles, and unlinked if it was the oldest file when visited; (b) every non-current index file no bucket refers into is zero-length or unlinked within 4 index cycles; (c) a primary file whose free share is >= threshold+10% is, within live+4 cycles, drained and released or shortened by truncation of its free tail until its free share is below that again; (d) a cycle that relocated nothing does not grow StorageSize, otherwise growth is bounded by the relocated records, their rewritten record lists and 24 bytes of freelist per record; (e) after the bounds one more primary+index cycle and Flush changes no file. " +
+		Rule: "case = (multihash configuration with file limits 50-1000 bytes, key universe, fill history that spreads records over several files, then a kill phase that removes/overwrites all keys of chosen non-current files, or all but a few (low-use scenario), followed by Flush and harness-driven GC cycles with a Flush after each; some cases start with cycles stopped midway by a synthetic deadline; in a quarter of the cases EVERY primary cycle is time-limited with a budget that expires while its first unvisited file is scanned, and the bounds grow by the number of non-current files). Oracle on directory listings, sizes, StorageSize and fsck's decoded layout: (a) every non-current primary file without live records is zero-length or unlinked within 4 primary cycles, and unlinked if it was the oldest file when visited; (b) every non-current index file no bucket refers into is zero-length or unlinked within 4 index cycles; (c) a primary file whose free share is >= threshold+10% is, within live+4 cycles, drained and released or shortened by truncation of its free tail until its free share is below that again; (d) a cycle that relocated nothing does not grow StorageSize, otherwise growth is bounded by the relocated records, their rewritten record lists and 24 bytes of freelist per record; (e) after the bounds one more primary+index cycle and Flush changes no file. Pinned variant (index mod 8 == 6): a complete cycle visits every file before the kill phase and the first cycle after it is stopped by its budget while its freelist batch is being applied. Background family (index mod 16 == 15): the store's own collector goroutines (1 ms interval, with or without a cycle time limit that never expires) are stepped one cycle at a time by gates at their cycle-start points, with a Flush while both are parked; clauses (a)-(c) with the same bounds and the default 85% threshold. " +
 			"non-trivial iff at least one dead or low-use file existed and was released; distinct = hash of (configuration, digests, operations, scenario)",
 		Assumptions: []string{
 			"progress is measured in harness-driven cycles with a Flush between cycles (the statement's 'change flushed')",
@@ -75,6 +75,9 @@ func primHeaderFirst(env *core.Env) uint32 {
 }
 
 func runC11(c run.Ctx) *core.CaseResult {
+	if c.Index%16 == 15 {
+		return runC11Background(c)
+	}
 	res := &core.CaseResult{ID: c.ID(), Verdict: "held"}
 	r := gen.Rng(c.Seed, propStream("C11"), uint64(c.Index))
 	cfg := gen.Config{Primary: gen.MH, Bits: []uint8{8, 12, 16}[r.IntN(3)],
@@ -125,6 +128,15 @@ func runC11(c run.Ctx) *core.CaseResult {
 	do(seq.Op{Kind: "flush"})
 	if res.Verdict == "violated" {
 		return res
+	}
+	// pinned variant: every non-current file has been visited by a complete cycle before the kill
+	// phase, and the first cycle after it is stopped by its budget while the freelist batch is being
+	// applied (after the records were marked, before the cycle looked at any file)
+	pinnedInterrupt := c.Index%8 == 6
+	if pinnedInterrupt {
+		// (same threshold as later: a file that is low-use already now is drained from here on)
+		do(seq.Op{Kind: "gcp", A: threshold})
+		do(seq.Op{Kind: "flush"})
 	}
 	layout := func() (*fsck.Layout, *fsck.Resolved) {
 		l, err := env.Fsck()
@@ -261,6 +273,23 @@ func runC11(c run.Ctx) *core.CaseResult {
 	res.Add("lowuse_primary_files", int64(len(lowUse)))
 	res.Add("dead_index_files", int64(len(deadIdx)))
 
+	if os.Getenv("VERIF_DEBUG") != "" {
+		rt.OnHook(func(name string, v any, hit int64) {
+			if name == "mh.gc.freelist.before-mark" || name == "mh.gc.file.start" || name == "mh.gc.cycle.start" || name == "mh.gc.relocate.read" {
+				fmt.Fprintf(os.Stderr, "DBG %s %v\n", name, v)
+			}
+		})
+		fmt.Fprintf(os.Stderr, "DBG --- kill phase done; deadPrim=%v lowUse=%v pmfs=%d threshold=%d\n", deadPrim, lowUse, pmfs, threshold)
+	}
+	if pinnedInterrupt {
+		m0 := rt.Count("mh.gc.freelist.before-mark")
+		do(seq.Op{Kind: "gcp", A: threshold, B: 2001 + r.IntN(3)})
+		do(seq.Op{Kind: "flush"})
+		res.Add("cases_with_cycle_interrupted_inside_freelist_batch", 1)
+		if rt.Count("mh.gc.freelist.before-mark") > m0 {
+			res.Add("cycles_interrupted_after_marking", 1)
+		}
+	}
 	// optional: cycles stopped midway first (they must not prevent later progress)
 	if r.IntN(4) == 0 {
 		for i := 0; i < 1+r.IntN(2); i++ {
